@@ -11,6 +11,8 @@ mod persist_policy;
 mod record;
 mod recordlog;
 mod rolling;
+#[cfg(mrecordlog_verif)]
+pub mod verif_hooks;
 
 pub use mem::{QueueSummary, QueuesSummary};
 pub use multi_record_log::MultiRecordLog;
